@@ -1329,12 +1329,8 @@ pub fn run(ctx: &Ctx) {
     let per = ctx.tier.scale(25_000, 20);
     ctx.search("generated", 16, per, &case_strategy, check);
     if ctx.tier == crate::core::Tier::Thorough {
-        crate::fuzzrun::campaign(ctx, "fz_ctor", 8, fuzz_runs(400_000), 256);
+        crate::fuzzrun::campaign(ctx, "fz_ctor", 8, crate::fuzzrun::runs(400_000), 256);
     }
-}
-
-fn fuzz_runs(default: u64) -> u64 {
-    std::env::var("VH_FUZZ_RUNS").ok().and_then(|s| s.parse().ok()).unwrap_or(default)
 }
 
 pub fn replay(path: &str) -> Result<Outcome, String> {
